@@ -116,7 +116,7 @@ Print Assumptions int_cmp_old_refuted.
 
 (* 14. the comparison code of the working tree has the shapes Values.v models (re-read on every run) *)
 Theorem model_shapes_match_source :
-  int_cmp_threeway = true /\ float_cmp_shape_ok = true /\ seq_cmp_shape_ok = true /\ tree_cmp_shape_ok = true /\
+  int_cmp_threeway = true /\ int_cmp_shape_ok = true /\ float_cmp_shape_ok = true /\ seq_cmp_shape_ok = true /\ tree_cmp_shape_ok = true /\
   cmp_predicates_shape_ok = true /\ cmp_default_shape_ok = true.
 Proof. exact CmpProofs.source_shapes. Qed.
 Print Assumptions model_shapes_match_source.
